@@ -975,6 +975,15 @@ func RacePass(ctx *Ctx, pkg, what string, quickCount, thoroughCount int, k inter
 		args = append(args, "-short")
 	}
 	args = append(args, "-count="+count)
+	// A free-running body that hangs on the tree under check (real goroutines, no scheduler to call it a deadlock)
+	// must not hold the check for go test's default ten minutes: the pass gets a deadline far above its normal
+	// duration (seconds), and running into it is RECORDED, not alarmed - deadlocks are decided by the controlled
+	// exploration, exactly; a wall-clock deadline is never an oracle here.
+	if ctx.Quick() {
+		args = append(args, "-timeout=240s")
+	} else {
+		args = append(args, "-timeout=1200s")
+	}
 	if RepoDir != "/repo" {
 		args = append(args, "-modfile="+os.Getenv("VERIF_WORK")+"/go.mod")
 	}
@@ -996,6 +1005,9 @@ func RacePass(ctx *Ctx, pkg, what string, quickCount, thoroughCount int, k inter
 			end = len(o)
 		}
 		ctx.Violate("data-race", "race detector report in free-running "+what+": "+o[i:end], k)
+	case err != nil && strings.Contains(o, "test timed out after"):
+		ctx.Outcome("race-pass-deadline(recorded, not alarmed)")
+		ctx.Note("free-running " + what + " ran into its deadline (recorded, not alarmed; deadlocks are decided by the controlled exploration): " + firstLines(tail, 6))
 	case err != nil && strings.Contains(o, "--- FAIL"):
 		ctx.Violate("wrong-output.free-running", "free-running "+what+" failed: "+tail, k)
 	case err != nil:
